@@ -204,7 +204,16 @@ func cmdRun(args []string) int {
 			infra = true
 			continue
 		}
-		v, err := c.Replay(rf.Payload)
+		rc := c
+		if rf.Property != "" && rf.Property != *prop {
+			// the finding is recorded with a replay of another property's check (same root cause)
+			if rc = registry.Get(rf.Property); rc == nil {
+				fmt.Fprintf(os.Stderr, "known finding %s: replay file is for unknown property %s\n", f.ID, rf.Property)
+				infra = true
+				continue
+			}
+		}
+		v, err := rc.Replay(rf.Payload)
 		if err != nil {
 			fmt.Fprintf(os.Stderr, "known finding %s: replay: %v\n", f.ID, err)
 			infra = true
